@@ -94,6 +94,18 @@ pub fn c13_api(r: &mut Rng, n: usize) {
             Some(Err(e)) => { l.s("err").s(if e == "Cancelled" { "cancelled" } else { "failed" }); }
         }
         l.emit();
+        if i % 4 == 1 {
+            // start and goal identical, flag raised: still an error, not a trivial path
+            let stop3 = AtomicBool::new(true);
+            let mut l = Line::new("C13", "api/same-start-goal/cancelled-before", "rrt");
+            l.j6(&q).j6(&q).f(planner.step_size_joint_space).n(planner.max_try).b(true).j6(&f).j6(&t).arrow();
+            match catch(AssertUnwindSafe(|| planner.plan_rrt(&q, &q, &k.kws, &stop3))) {
+                None => { l.s("panic"); }
+                Some(Ok(path)) => { l.s("ok").n(path.len()); for p in &path { l.j6(p).b(k.kws.collides(p)).b(k.kws.constraints().as_ref().unwrap().compliant(p)); } }
+                Some(Err(e)) => { l.s("err").s(if e == "Cancelled" { "cancelled" } else { "failed" }); }
+            }
+            l.emit();
+        }
         if i % 7 == 0 {
             // cancellation raised from another thread during planning of an infeasible problem (goal buried in an obstacle is
             // not allowed; use a tiny step and a huge budget instead so that planning takes long)
@@ -191,7 +203,9 @@ pub fn c12(seed: u64, n: usize) {
         done += 1;
         let include = r.chance(0.6);
         let planner = Cartesian { robot: &k.kws, check_step_m: *r.pick(&[0.01, 0.02, 0.05]), check_step_rad: 3f64.to_radians(),
-            max_transition_cost: *r.pick(&[3f64.to_radians(), 6f64.to_radians(), 0.3]), transition_coefficients: DEFAULT_TRANSITION_COSTS,
+            max_transition_cost: *r.pick(&[3f64.to_radians(), 6f64.to_radians(), 0.3]),
+            transition_coefficients: match r.below(3) { 0 => DEFAULT_TRANSITION_COSTS, 1 => [*r.pick(&[0.5, 2.0, 4.0]); 6],
+                _ => [r.range(0.3, 3.0), r.range(0.3, 3.0), r.range(0.3, 3.0), r.range(0.3, 3.0), r.range(0.3, 3.0), r.range(0.3, 3.0)] },
             linear_recursion_depth: *r.pick(&[0usize, 2, 6, 8]), rrt: RRTPlanner { step_size_joint_space: 3f64.to_radians(), max_try: 500, debug: false },
             include_linear_interpolation: include, debug: false };
         let pools = [1usize, 2, 4, 16];
